@@ -284,6 +284,16 @@ class Unit:
         self.name = name
         self.dir = os.path.join(VERIF, 'units', name)
         self.conf = json.load(open(os.path.join(self.dir, 'unit.json')))
+        # shape variants: contracts for an earlier shape of a function (the shape it had before a
+        # "fix:" commit), carrying the SAME postconditions as the current contract.  They are tried
+        # only when the anchors of the current contract are lost, so that a return of the repaired
+        # defect in its original form fails its named obligation instead of ending undecided.
+        self.shape_specs = {}
+        for spn in sorted(x for x in os.listdir(self.dir) if x.startswith('shape_') and x.endswith('.txt')):
+            sp = os.path.join(self.dir, spn)
+            for fs in spec.parse_specs(open(sp).read(), sp):
+                fs.shape_file = spn
+                self.shape_specs.setdefault((fs.kind, fs.path), []).append(fs)
         self.specs = {}
         for spn in sorted(x for x in os.listdir(self.dir) if x.startswith('specs') and x.endswith('.txt')):
             sp = os.path.join(self.dir, spn)
@@ -370,7 +380,21 @@ class Unit:
                     txt = mutate(path, txt)
                 if fs is not None:
                     used_specs.add((kind, path))
-                    txt, rw = spec.inject(txt, fs)
+                    try:
+                        txt, rw = spec.inject(txt, fs)
+                    except spec.LostAnchor as lost:
+                        done = False
+                        for alt in self.shape_specs.get((kind, path), []):
+                            try:
+                                txt, rw = spec.inject(txt, alt)
+                            except spec.LostAnchor:
+                                continue
+                            rw = list(rw) + [('SHAPE', 'anchors of the current contract lost (%s); contract for the earlier shape (%s) used' % (str(lost)[:120], alt.shape_file))]
+                            fs = alt
+                            done = True
+                            break
+                        if not done:
+                            raise
                     rew.extend(rw)
                 if 'R1' in rules:
                     txt, n = rule_R1_pub(txt, kind, in_trait_impl)
